@@ -114,7 +114,18 @@ theorem loadRelevantCoins_malformed (s : State) (txs : List Tx) (tx : Tx) (htx :
     (hbad : (tx.isWellFormed && tx.melTotalFits) = false) :
     loadRelevantCoins s txs = .reject .malformedTx := by
   rw [loadRelevantCoins_eq]
-  have : (txs.all fun tx => tx.isWellFormed && tx.melTotalFits) = false := by
+  have : (txs.all fun tx => tx.isWellFormed && tx.melTotalFits && tx.covWeightsFit) = false := by
+    rw [List.all_eq_false]
+    exact ⟨tx, htx, by simp [hbad]⟩
+  simp [this]
+
+/-- a transaction whose covenant weights do not add up within a u128 makes `loadRelevantCoins` reject the batch
+    (the guard added with the fix for F19) -/
+theorem loadRelevantCoins_heavy (s : State) (txs : List Tx) (tx : Tx) (htx : tx ∈ txs)
+    (hbad : tx.covWeightsFit = false) :
+    loadRelevantCoins s txs = .reject .malformedTx := by
+  rw [loadRelevantCoins_eq]
+  have : (txs.all fun tx => tx.isWellFormed && tx.melTotalFits && tx.covWeightsFit) = false := by
     rw [List.all_eq_false]
     exact ⟨tx, htx, by simp [hbad]⟩
   simp [this]
@@ -738,7 +749,6 @@ theorem applyBatch_noCrash (env : Env) (s : State) (txs : List Tx) (fb : Header)
     (hbelow : ∀ h hdr, s.history.get h = some hdr → h < s.height)
     (hpow : ∀ a b c d, env.powOk a b c d ≠ .panics)
     (hdiff : ∀ a b c d, env.powOk a b c d ≠ .invalid → c ≤ 100)
-    (hw : ∀ t ∈ txs, (t.covenants.map covenantWeightFromBytes).sum ≤ U128_MAX)
     (hfits : ∀ hdr, s.history.get (s.height - 1) = some hdr → ∀ a b d t, env.powOk a b d t ≠ .invalid →
       microergsIter s.height * ((TIP910_WORK_FACTOR * 2 ^ d) * (TIP910_SPEED_FACTOR * 2 ^ d) * MICRO_CONVERTER /
         (hdr.doscSpeed ^ 2 * REWARD_DIVISOR)) / MICRO_CONVERTER ≤ U128_MAX) :
@@ -746,6 +756,11 @@ theorem applyBatch_noCrash (env : Env) (s : State) (txs : List Tx) (fb : Header)
   unfold applyBatch
   refine NoCrash.bind (loadRelevantCoins_noCrash s txs) ?_
   intro rel hrel
+  -- the covenant weights of every transaction add up within a u128: `loadRelevantCoins` has checked it (F19 fix)
+  have hw : ∀ t ∈ txs, (t.covenants.map covenantWeightFromBytes).sum ≤ U128_MAX := by
+    intro t ht
+    have h := ((loadRelevantCoins_ok hrel).1 t ht).2.2
+    simpa [Tx.covWeightsFit] using h
   refine NoCrash.bind (loadStakeInfo_noCrash s txs) ?_
   intro ns _
   dsimp only
